@@ -151,24 +151,102 @@ def h_mean(ctx, nl, nr, rep, fa, fv, refine=0):
         ctx.prove("C04.small_jump_variance_added_for_infinite_variation", EQ(s2, sigma * sigma + small), info=info)
 
 
+class _ScipyStubMCLC:
+    """the small-jump covariance of an infinite-variation copula chain (scipy.integrate.nquad over the central cell, scipy.linalg.sqrtm)
+    does not enter the drift: arbitrary values"""
+
+    class integrate:
+        @staticmethod
+        def nquad(func, ranges, opts=None, **kw):
+            c = V.get_context()
+            return (c.real("small_jump_second_moment", 0), 0.0)
+
+    class linalg:
+        @staticmethod
+        def sqrtm(mat):
+            return mat
+
+
+class _SerialMp:
+    """pathos pool used for the small-jump covariance entries: run in-process"""
+
+    class Pool:
+        def __init__(self, *a, **kw):
+            pass
+
+        def __enter__(self):
+            return self
+
+        def __exit__(self, *a):
+            return False
+
+        def apply_async(self, fn, args=(), kwds=None):
+            val = fn(*args, **(kwds or {}))
+
+            class _R:
+                def get(self_inner):
+                    return val
+
+            return _R()
+
+
+def replay_copula_margins(sc):
+    """real copula chain with margins of mixed variation (HEM: finite, CGMY y=1.3: infinite): the mean per unit time of every margin of the
+    chain = a_i + mean of the truncated margin in the margin's own representation"""
+    import rpylib.model.levymodel.mixed.hem as HEM
+    import rpylib.model.levymodel.purejump.cgmy as CGMY
+    from rpylib.distribution.levycopula import ClaytonCopula
+
+    ms = [HEM.HEMModel(HEM.HEMParameters(sigma=0.1, p=0.4, eta1=20.0, eta2=25.0, intensity=3.0)), CGMY.CGMYModel(CGMY.CGMYParameters(c=0.1, g=5.0, m=6.0, y=1.3))]
+    lcm = LCM.LevyCopulaModel(models=ms, copula=ClaytonCopula(theta=0.7, eta=0.3))
+    h = 0.2
+    axis = np.array([-2.0, -1.0, -h, 0.0, h, 1.0, 2.0])
+    grid = GS.CTMCGrid(h=h, origin_coordinate=3, axes=[axis.copy(), axis.copy()])
+    proc = MCLC.MarkovChainLevyCopula(lcm, grid, SamplingMethod.INVERSION)
+    proc.initialisation(StubProduct())
+    drift = np.asarray(proc.process_drift(), dtype=float)
+    out = []
+    for i, m in enumerate(ms):
+        nu = m.levy_triplet.nu
+        q = SF.create_q_vector(proc.model.models[i].levy_triplet.nu, GS.CTMCGrid(h=h, origin_coordinate=3, axes=[axis.copy()]))
+        got = drift[i, 0] + float(np.dot(axis, q))
+        fv = nu.jump_of_finite_variation()
+        l, r = axis[0], axis[-1]
+        rep = m.levy_triplet.representation.name
+        a = float(m.levy_triplet.a)
+        if rep == "CENTER":
+            want = a
+        elif rep == "ZERO":
+            want = a + quad_mass(nu, l, -1e-12, 1) + quad_mass(nu, 1e-12, r, 1)
+        else:
+            want = None
+        if want is not None and abs(got - want) > 1e-6 * max(1.0, abs(want)):
+            out.append(f"margin {i} ({type(m).__name__}, declared {rep}, finite variation: {fv}): drift + sum x q = {got!r}, mean of the truncated margin {want!r}")
+    return bool(out), "HEM x CGMY(y=1.3), Clayton, grid [-2, 2] with h = 0.2: " + "; ".join(out)
+
+
 def h_copula_margins(ctx, npts, rep, fv):
-    """each margin of a copula chain: drift_i + mu_h_i = model drift_i + mean of the truncated margin i"""
+    """each margin of a copula chain: drift_i + mu_h_i = model drift_i + mean of the truncated margin i; fv may be a pair (one flag per margin)"""
     d = 2
+    fvs = tuple(fv) if isinstance(fv, (tuple, list)) else (fv,) * d
     axis, h, pivot = sym_axis(ctx, npts, npts, name="x0")
     axis2, _, _ = sym_axis(ctx, npts, npts, name="x1", h=h)
     grid = make_grid(h, pivot, [axis, axis2])
     a = [ctx.real(f"a{i}") for i in range(d)]
-    models = [A.abs_levy_model(ctx, f"nu{i}", sigma=0.0, a=a[i], representation=REPS[rep], finite_activity=False, finite_variation=fv, bg_index=0.5 if fv else 1.5)
+    models = [A.abs_levy_model(ctx, f"nu{i}", sigma=0.0, a=a[i], representation=REPS[rep], finite_activity=False, finite_variation=fvs[i], bg_index=0.5 if fvs[i] else 1.5)
               for i in range(d)]
     cop = A.AbsCopula(ctx, "F", d)
     lcm = LCM.LevyCopulaModel(models=models, copula=cop)
-    if not fv:
-        raise Unsupported("infinite-variation copula chains need nquad/sqrtm")
+    undo = shims.install(MCLC, scipy=_ScipyStubMCLC, mp=_SerialMp) if not all(fvs) else (lambda: None)
     try:
-        proc = MCLC.MarkovChainLevyCopula(lcm, grid, SamplingMethod.INVERSION)
-    except ZeroDivisionError:
-        raise PathAbort()
-    proc.initialisation(StubProduct())
+        try:
+            proc = MCLC.MarkovChainLevyCopula(lcm, grid, SamplingMethod.INVERSION)
+        except ZeroDivisionError:
+            raise PathAbort()
+        proc.initialisation(StubProduct())
+    finally:
+        undo()
+    fv = None
     drift = proc.process_drift()
     for i in range(d):
         ax, piv = grid.axes[i], grid.origin_coordinate.value[i]
@@ -176,8 +254,8 @@ def h_copula_margins(ctx, npts, rep, fv):
         mu = z3.RealVal(0)
         for k, (lo, hi) in cells(ax, piv).items():
             mu = mu + V.term_of(ax[k]) * cell_mass_term(nu, k, piv, lo, hi)
-        want = oracle_mean(nu, a[i], rep, fv, ax[0], ax[len(ax) - 1])
-        ctx.prove("C04.copula_margin_mean", EQ(drift[i, 0] + SymReal(mu), want), info={"margin": i, "rep": rep})
+        want = oracle_mean(nu, a[i], rep, fvs[i], ax[0], ax[len(ax) - 1])
+        ctx.prove("C04.copula_margin_mean", EQ(drift[i, 0] + SymReal(mu), want), info={"margin": i, "rep": rep, "finite_variation": list(fvs)}, replay=(replay_copula_margins, lambda m: {}))
 
 
 def h_twin(ctx):
@@ -216,6 +294,9 @@ def harnesses(tier):
                                   {"nl": nl, "nr": nr, "rep": rep, "fa": fa, "fv": fv, "refine": rf}, max_paths=6000, batch=10))
     for rep in (("TILDE", "ONEONE") if q else REPS):
         hs.append(Harness(f"copula.{rep}", h_copula_margins, {"npts": 1, "rep": rep, "fv": True}, max_paths=6000, batch=10))
+        if rep != "ZERO":  # the ZERO representation needs finite variation
+            hs.append(Harness(f"copula.mixed.{rep}", h_copula_margins, {"npts": 1, "rep": rep, "fv": (True, False)}, max_paths=6000, batch=10))
+            hs.append(Harness(f"copula.iv.{rep}", h_copula_margins, {"npts": 1, "rep": rep, "fv": (False, False)}, max_paths=6000, batch=10))
     hs.append(Harness("twin", h_twin, twin="must_fail"))
     return hs
 
